@@ -8,7 +8,7 @@ import numpy as np
 from . import geo, gen_geo, probes
 from .core import exc_site, BudgetExceeded
 
-N_CHOICES = [1, 2, 3, 7, 10, 11, 50, 300]
+N_CHOICES = [1, 2, 3, 7, 10, 11, 50, 121, 300]
 
 
 def _interior_points(node, env_row, rng, M=400):
@@ -198,7 +198,13 @@ def build_case(case):
     import torch
     torch.manual_seed(case["seed"])
     probes.install()
-    D = geo.build(case["spec"])
+    try:
+        D = geo.build(case["spec"])
+    except Exception as e:
+        from .core import LibraryFailure, viol
+        raise LibraryFailure(viol("exception", "building %s through the public constructors raised %s in %s: %s" %
+                                  (case.get("info", {}).get("desc", "?"), type(e).__name__, exc_site(e), str(e)[:300]),
+                                  exc=type(e).__name__, site=exc_site(e), phase="construct"))
     node = geo.ref(case["spec"])
     P, env = geo.make_params(case["rows"])
     return D, node, P, env
